@@ -44,6 +44,21 @@ CHECKS = {
   technique="runtime monitoring with a reference model: grammar-directed generator emitting an intended tree + token list, rendered under many layouts, parsed by the real parser and compared structurally (first-divergence path); reference grouping by precedence climbing over the property's table",
   text="Every generated program (all declaration and statement kinds, flat operator chains, escapes, boundary literals, groups, if(), calls) is rendered under canonical, whitespace-free, random-whitespace and commented layouts and parsed by falco; the parsed tree must equal the tree the generator intended. An exhaustive pairwise sweep covers all ordered pairs of binary operators x prefix placement x parenthesisation.",
   note="Trusts the generator's own model of the grammar (docs/parser.md) and its independent literal tables (Go compile-time constants for numeric values, per-segment decoded text for escapes); the comparison ignores *ast.Meta except the numeric source literal."),
+ "C03": dict(
+  category="exploration", design_ref="DESIGN.md §4 C03",
+  technique='runtime monitoring, metamorphic pair: parse -> format -> parse again, structural comparison under configuration-dependent normalisations, localisation to the smallest failing statement',
+  text='Generated declaration files (all constructs, decorated with comments at documented placeholders, random layouts), all example and corpus files, under the default configuration, every single-option flip and random configurations, are formatted by the real formatter; the output must parse and denote the same tree.',
+  note="Trusts the generator/renderer (documented comment placeholders, inline vs boundary gaps), astcmp with exactly the normalisations the configuration documents, and falco's own lexer/parser as reader of the formatted text. Findings are keyed by root cause after localising to the smallest failing statement; four open root causes of the formatter are listed in known_findings.json."),
+ "C14": dict(
+  category="exploration", design_ref="DESIGN.md §4 C14",
+  technique='runtime monitoring, metamorphic pair: Format(Format(x)) == Format(x) byte comparison over generated programs x configurations, localisation to the smallest non-idempotent statement',
+  text="Same workload as C03; the formatter's own output is formatted again under the same configuration and must be byte-identical.",
+  note="Trusts the generator/renderer (documented comment placeholders, inline vs boundary gaps), astcmp with exactly the normalisations the configuration documents, and falco's own lexer/parser as reader of the formatted text. Findings are keyed by root cause after localising to the smallest failing statement; four open root causes of the formatter are listed in known_findings.json."),
+ "C15": dict(
+  category="exploration", design_ref="DESIGN.md §4 C15",
+  technique="runtime monitoring, conservation/order checker over COMMENT tokens (falco's lexer) of input vs formatted output with uniquely numbered comments at every documented placeholder",
+  text='Comments with unique serials are inserted at the placeholders docs/parser.md documents (each placeholder alone, all at once, random subsets; #, // and /* */ styles); the formatted output must contain each serial exactly once, in order, with unchanged text modulo the configured marker style; #FASTLY/falco-ignore/@scope comments must survive verbatim.',
+  note="Trusts the generator/renderer (documented comment placeholders, inline vs boundary gaps), astcmp with exactly the normalisations the configuration documents, and falco's own lexer/parser as reader of the formatted text. Findings are keyed by root cause after localising to the smallest failing statement; four open root causes of the formatter are listed in known_findings.json."),
 }
 
 NOT_APPLICABLE = {}
